@@ -1,10 +1,13 @@
 import PbVerif.Lemmas.Whittaker
+import PbVerif.Lemmas.Kron2d
+import PbVerif.Lemmas.Jbcd
+import PbVerif.Lemmas.LoopS
 /-! C06 — Whittaker baselines solve the documented penalised least-squares system: the band arrays
 the methods assemble DENOTE the documented matrices, for every size, order, weight vector and
 storage layout (the solvers themselves are outside the model: each of their outputs is certified by an
 exact backward error in the correspondence). -/
 namespace PbVerif.C06
-open PbVerif.Banded PbVerif.Whittaker PbVerif.Lemmas
+open PbVerif.Banded PbVerif.Whittaker PbVerif.Lemmas PbVerif.Loop
 
 theorem std_asm_den_lower (n d : Nat) (lam : Rat) (w : List Rat) (hw : w.length = n) (i j : Nat) (hi : i < n) (hj : j < n) :
     denLower (asmStd n d lam w true false) i j = docStd n d lam w i j := Lemmas.std_asm_den_lower n d lam w hw i j hi hj
@@ -32,5 +35,137 @@ theorem certificate_uses_DtD (n d i j : Nat) (hi : i < n) (hj : j < n) : dtdFast
 
 example : asmStd 5 2 1 [1, 2, 3, 4, 5] true false = [[2, 7, 9, 9, 6], [-2, -4, -4, -2, 0], [1, 1, 1, 0, 0]] := by decide +kernel
 example : denFull (asmAspls 5 2 1 [0, 0, 0, 0, 0] [1, 2, 3, 4, 5] false) 2 1 2 = 2 * -4 := by decide +kernel
+
+/-! ### 2-D: Kronecker-sum penalty (`two_d/_whittaker_utils.py: PenalizedSystem2D`) -/
+
+/-- **`kron_penalty_vec`**: over any commutative ring, for the row-major vec of an `M × N` array `V`,
+`(λ_r P_r ⊗ I_N + I_M ⊗ λ_c P_c) vec(V) = vec(λ_r P_r V + λ_c V P_cᵀ)`, entry `(i, j)`, for all `M`, `N` (Kronecker entries
+`(A ⊗ B)[a,b] = A[a/N, b/N]·B[a%N, b%N]` as `scipy.sparse.kron` lays them out) -/
+theorem kron_penalty_vec {α : Type} [CommRing α] (M N : Nat) (lr lc : α) (Pr Pc V : Nat → Nat → α) (i j : Nat) (hi : i < M) (hj : j < N) :
+    (∑ b ∈ Finset.range (M * N), (kronG (fun p q => lr * Pr p q) idG N (i * N + j) b + kronG idG (fun p q => lc * Pc p q) N (i * N + j) b)
+        * V (b / N) (b % N))
+      = lr * ∑ i' ∈ Finset.range M, Pr i i' * V i' j + lc * ∑ j' ∈ Finset.range N, V i j' * Pc j j' :=
+  kron_penalty_vec_G M N lr lc Pr Pc V i j hi hj
+/-- the documented 2-D matrix the certificate evaluates is exactly `diag(w) + λ_r D_r'D_r ⊗ I_n + I_m ⊗ λ_c D_c'D_c` -/
+theorem doc2d_is_kron_sum (m n dr dc : Nat) (lamr lamc : Rat) (w : List Rat) (a b : Nat) (ha : a < m * n) (hb : b < m * n) :
+    doc2d m n dr dc lamr lamc w a b = delta a b (w.getD a 0)
+      + (kronG (fun p q => lamr * dtdQ m dr p q) idG n a b + kronG idG (fun p q => lamc * dtdQ n dc p q) n a b) := by
+  rw [doc2d_eq_kron, pen2d_eq_kron_DtD m n dr dc lamr lamc a b ha hb]
+/-- the matrix assembled by `reset_diagonals` + `add_diagonal(w)` (what `direct_solve` receives) is the documented one -/
+theorem asm2d_den (m n dr dc : Nat) (lamr lamc : Rat) (w : List Rat) (a b : Nat) :
+    asm2d m n dr dc lamr lamc w a b = doc2d m n dr dc lamr lamc w a b := asm2d_eq_doc2d m n dr dc lamr lamc w a b
+/-- row `(i, j)` of the documented 2-D system applied to a row-major vec `v` (`V[p,q] = v[p·n+q]`):
+`w∘v + λ_r (D_r'D_r V) + λ_c (V D_c'D_c)` — the form of docs/algorithms_2d/whittaker -/
+theorem doc2d_apply_vec (m n dr dc : Nat) (lamr lamc : Rat) (w v : List Rat) (i j : Nat) (hi : i < m) (hj : j < n) :
+    sumL ((List.range (m * n)).map fun b => doc2d m n dr dc lamr lamc w (i * n + j) b * v.getD b 0)
+      = w.getD (i * n + j) 0 * v.getD (i * n + j) 0
+        + lamr * sumL ((List.range m).map fun i' => dtdQ m dr i i' * v.getD (i' * n + j) 0)
+        + lamc * sumL ((List.range n).map fun j' => v.getD (i * n + j') 0 * dtdQ n dc j j') := doc2d_mulVec m n dr dc lamr lamc w v i j hi hj
+
+example : asm2dRows 2 2 1 1 2 3 [1, 1, 1, 1] = [[6, -3, -2, 0], [-3, 6, 0, -2], [-2, 0, 6, -3], [0, -2, -3, 6]] := by decide +kernel
+example : (∑ b ∈ Finset.range (2 * 2), (kronG (fun p q => (2:Int) * (if p = q then 1 else -1)) idG 2 (1 * 2 + 0) b
+    + kronG idG (fun p q => (3:Int) * (if p = q then 1 else -1)) 2 (1 * 2 + 0) b) * ((fun p q => ((p + 2 * q : Nat) : Int)) (b / 2) (b % 2))) = -4 := by decide +kernel
+
+/-! ### jbcd (`morphological.py`): the two banded systems of every iteration -/
+
+/-- **`jbcd_asm_den`** (lower bands, `banded_solver = 3`, or 1–2 when `diff_order ≠ 2` / no pentapy): `c·penalty` with `diag` added to the
+main row denotes `diag·I + c·D'D`; signal step `(c, diag) = (γ, 1)`, baseline step `(2β, 1 + 2α)` -/
+theorem jbcd_asm_den_lower (n d : Nat) (c diag : Rat) (i j : Nat) (hi : i < n) (hj : j < n) :
+    denLower (asmJbcd n d c diag true false) i j = docJbcd n d c diag i j := Lemmas.jbcd_asm_den_lower n d c diag i j hi hj
+/-- … full bands (`banded_solver = 4`) -/
+theorem jbcd_asm_den_full (n d : Nat) (c diag : Rat) (i j : Nat) (hi : i < n) (hj : j < n) :
+    denFull (asmJbcd n d c diag false false) d i j = docJbcd n d c diag i j := Lemmas.jbcd_asm_den_full n d c diag i j hi hj
+/-- … reversed full bands (pentapy, `diff_order = 2`): the same array upside down -/
+theorem jbcd_asm_reversed (n d : Nat) (c diag : Rat) :
+    (asmJbcd n d c diag false true).reverse = asmJbcd n d c diag false false := Lemmas.jbcd_asm_reversed n d c diag
+/-- **`jbcd_asm_den`**: both systems of a pass, in both solver layouts: signal `I + γ D'D`, baseline `(1 + 2α) I + 2β D'D` -/
+theorem jbcd_asm_den (n d : Nat) (alpha beta gamma : Rat) (i j : Nat) (hi : i < n) (hj : j < n) :
+    denLower (asmJbcdSignal n d gamma true false) i j = docJbcd n d gamma 1 i j ∧
+    denFull (asmJbcdSignal n d gamma false false) d i j = docJbcd n d gamma 1 i j ∧
+    denLower (asmJbcdBaseline n d alpha beta true false) i j = docJbcd n d (2 * beta) (1 + 2 * alpha) i j ∧
+    denFull (asmJbcdBaseline n d alpha beta false false) d i j = docJbcd n d (2 * beta) (1 + 2 * alpha) i j :=
+  ⟨Lemmas.jbcd_asm_den_lower n d gamma 1 i j hi hj, Lemmas.jbcd_asm_den_full n d gamma 1 i j hi hj,
+   Lemmas.jbcd_asm_den_lower n d (2 * beta) (1 + 2 * alpha) i j hi hj, Lemmas.jbcd_asm_den_full n d (2 * beta) (1 + 2 * alpha) i j hi hj⟩
+/-- the baseline step is the documented `(I + 2αI + 2β D'D)` -/
+theorem jbcd_baseline_den (n d : Nat) (alpha beta : Rat) (i j : Nat) (hi : i < n) (hj : j < n) :
+    denLower (asmJbcdBaseline n d alpha beta true false) i j = delta i j 1 + 2 * alpha * delta i j 1 + 2 * beta * dtdQ n d i j := by
+  rw [show asmJbcdBaseline n d alpha beta true false = asmJbcd n d (2 * beta) (1 + 2 * alpha) true false from rfl,
+    Lemmas.jbcd_asm_den_lower n d _ _ i j hi hj]
+  unfold docJbcd delta
+  split <;> ring
+/-- the signal step as coded is `I + γ D'D` … -/
+theorem jbcd_signal_den (n d : Nat) (gamma : Rat) (i j : Nat) (hi : i < n) (hj : j < n) :
+    denLower (asmJbcdSignal n d gamma true false) i j = delta i j 1 + gamma * dtdQ n d i j :=
+  Lemmas.jbcd_asm_den_lower n d gamma 1 i j hi hj
+/-- … which is NOT the documented `I + 2γ D'D` (docs/algorithms/morphological.rst, also the stationarity condition of the documented
+objective) for any `γ ≠ 0` and `d < n`: the (0,0) entries differ.  (FALSE as planned: `jbcd_asm_den` for the signal system with `2γ`.) -/
+theorem jbcd_signal_ne_documented (n d : Nat) (gamma : Rat) (hg : gamma ≠ 0) (h : d < n) :
+    denLower (asmJbcdSignal n d gamma true false) 0 0 ≠ docJbcd n d (2 * gamma) 1 0 0 := by
+  rw [show asmJbcdSignal n d gamma true false = asmJbcd n d gamma 1 true false from rfl,
+    Lemmas.jbcd_asm_den_lower n d gamma 1 0 0 (by omega) (by omega)]
+  exact Lemmas.jbcd_signal_ne_documented n d gamma hg h
+
+example : asmJbcdSignal 4 1 3 true false = [[4, 7, 7, 4], [-3, -3, -3, 0]] ∧
+    asmJbcdBaseline 4 1 (1/2) 3 false false = [[0, -6, -6, -6], [8, 14, 14, 8], [-6, -6, -6, 0]] := by decide +kernel
+example : denLower (asmJbcdSignal 4 1 3 true false) 0 0 = 4 ∧ docJbcd 4 1 (2 * 3) 1 0 0 = 7 := by decide +kernel
+
+/-! ### which weights the returned baseline was solved with (`Model/LoopS`: the loops with their state, abstract `solve` / `rule`) -/
+
+/-- **`converged_pair_solves`** — single-loop skeleton (asls, iasls, airpls, arpls, drpls, iarpls, aspls, psalsa, derpsalsa, lsrpls and
+their spline / 2-D versions): when the loop stops because the recorded difference fell below `tol` (at pass `len − 1`) or because the
+rule signalled the early exit (at pass `len`), the returned state (`weights`, and `alpha` for aspls) is the one the returned baseline
+was solved with, and it is the iterate of that pass -/
+theorem converged_pair_solves {S B : Type} (solve : S → B) (rule : B → Nat → S → S × Bool × Rat) (tol : Rat) (budget : Nat) (s0 : S) :
+    let R := run solve rule tol budget s0
+    ((R.stop = .converged ∨ R.stop = .early) → R.base = some (solve R.state)) ∧
+    (R.stop = .converged → 1 ≤ R.len ∧ R.state = stateSeq solve rule s0 (R.len - 1)) ∧
+    (R.stop = .early → R.state = stateSeq solve rule s0 R.len) := by
+  obtain ⟨-, h1, h2, -⟩ := run_spec solve rule tol s0 budget
+  refine ⟨fun h => ?_, fun h => ⟨(h1 h).1, (h1 h).2.1⟩, fun h => (h2 h).1⟩
+  rcases h with h | h
+  · exact (h1 h).2.2
+  · exact (h2 h).2
+/-- … at exhaustion (`budget` passes done, `budget > 0`) the returned baseline was solved with the PREVIOUS iterate and the returned
+state is the freshly computed one, `rule(returned baseline)` — not a solve pair in general (what C09 `exhausted_weights_rule` uses) -/
+theorem exhausted_returns_fresh_state {S B : Type} (solve : S → B) (rule : B → Nat → S → S × Bool × Rat) (tol : Rat) (budget : Nat) (s0 : S)
+    (hb : 0 < budget) (hx : (run solve rule tol budget s0).stop = .exhausted) :
+    (run solve rule tol budget s0).len = budget ∧
+    (run solve rule tol budget s0).base = some (solve (stateSeq solve rule s0 (budget - 1))) ∧
+    (run solve rule tol budget s0).state
+      = (rule (solve (stateSeq solve rule s0 (budget - 1))) (budget - 1) (stateSeq solve rule s0 (budget - 1))).1 := by
+  obtain ⟨-, -, -, h3⟩ := run_spec solve rule tol s0 budget
+  obtain ⟨a, b, c⟩ := h3 hx
+  refine ⟨a, c hb, ?_⟩
+  rw [b]
+  obtain ⟨m, rfl⟩ : ∃ m, budget = m + 1 := ⟨budget - 1, by omega⟩
+  rfl
+/-- the loop with state takes exactly the decisions of the skeleton `Loop.runLoop` that C01 / C09 reason about -/
+theorem stateful_refines_skeleton {S B : Type} (solve : S → B) (rule : B → Nat → S → S × Bool × Rat) (tol : Rat) (budget : Nat) (s0 : S) :
+    ((run solve rule tol budget s0).len, (run solve rule tol budget s0).stop)
+      = runLoop budget tol (dOf solve rule s0) (exitOf solve rule s0) := (run_spec solve rule tol s0 budget).1
+/-- brpls (nested loops): the returned `baseline` is `solve(params['weights'])` (`baseline_weights`) whatever the two loops decide —
+unless the rule signals the early exit on the very first solve, when the data themselves are returned (`none`) -/
+theorem brpls_pair_solves {W B P : Type} (solve : W → B) (rule : B → P → W × Bool) (conv : Option B → B → Bool) (crit : P → W → Bool → Bool)
+    (nextBeta : W → P) (maxIter maxIter2 : Nat) (beta0 : P) (w0 : W) :
+    let r := brRun solve rule conv crit nextBeta maxIter maxIter2 beta0 w0
+    (r.1 = none ∨ r.1 = some (solve r.2)) ∧ ((rule (solve w0) beta0).2 = false → r.1 = some (solve r.2)) :=
+  brRun_pair solve rule conv crit nextBeta maxIter maxIter2 beta0 w0
+/-- jbcd: the returned baseline is the baseline system of the LAST pass solved with the returned signal (`params['signal']`), with the
+parameters `γ·gamma_mult^(len−1)`, `β·beta_mult^(len−1)` of that pass -/
+theorem jbcd_pair_solves {Sg V P : Type} (solveS : P → V → Sg) (solveB : P → Sg → V) (crit : Sg → Sg → V → V → Bool) (gm bm : P → P)
+    (budget : Nat) (hb : 0 < budget) (s : JbSt Sg V P) :
+    1 ≤ (jbRun solveS solveB crit gm bm budget 0 s none).2.1 ∧ (jbRun solveS solveB crit gm bm budget 0 s none).2.1 ≤ budget ∧
+    ∃ v sg, (jbRun solveS solveB crit gm bm budget 0 s none).1
+        = some (v, sg, gm^[(jbRun solveS solveB crit gm bm budget 0 s none).2.1 - 1] s.gamma,
+                 bm^[(jbRun solveS solveB crit gm bm budget 0 s none).2.1 - 1] s.beta) ∧
+      v = solveB (bm^[(jbRun solveS solveB crit gm bm budget 0 s none).2.1 - 1] s.beta) sg :=
+  jbRun_top solveS solveB crit gm bm budget hb s
+
+example : (let r := runIdx 5 (1/10) (fun k => 1 / ((k : Rat) + 1)) (fun _ => false); (r.state, r.base, r.len, r.stop)) = (5, some 4, 5, .exhausted) ∧
+    (let r := runIdx 20 (1/10) (fun k => 1 / ((k : Rat) + 1)) (fun _ => false); (r.state, r.base, r.len, r.stop)) = (10, some 10, 11, .converged) ∧
+    (let r := runIdx 20 (1/10) (fun k => 1 / ((k : Rat) + 1)) (fun k => k == 3); (r.state, r.base, r.len, r.stop)) = (3, some 3, 3, .early) := by decide +kernel
+example : brIdx 3 2 (fun t => if t = 2 then 1 else 0) (fun w => w == 3) = (some 1, 1) ∧
+    brIdx 3 2 (fun _ => 2) (fun _ => true) = (none, 0) ∧ brIdx 0 1 (fun _ => 0) (fun _ => false) = (some 1, 1) := by decide +kernel
+example : jbIdx 4 (fun k => k == 2) = (some (2, 2, 2, 2), 3, .converged) ∧ jbIdx 2 (fun _ => false) = (some (1, 1, 1, 1), 2, .exhausted) := by decide +kernel
 
 end PbVerif.C06
